@@ -206,6 +206,10 @@ class Type3Tag(nfc.tag.Tag):
                 log.debug("unsupported ndef mapping major version")
                 return None
 
+            if attributes['nbr'] == 0:
+                log.debug("number of blocks for read is zero")
+                return None
+
             last_block_number = 1 + (attributes['ln'] + 15) // 16
             data = bytearray()
 
